@@ -135,6 +135,7 @@ def run_tlc(tag, module, consts, invariants, table_path=None, timeout=900, extra
 
 # ------------------------------------------------------------------ engines --
 PAIR_INVS = ["TypeOK", "UniqueKeys", "EqIsExtensional", "AlgebraIsMath"]
+MICRO_INVS = ["Safe", "Bounded", "IdleWellFormed"]
 ALL_INVS = ["TypeOK", "Bounded", "UniqueKeys", "RefinesDict", "Conservation", "UncheckedAgrees", "DisjointAgrees"]
 
 
@@ -149,17 +150,22 @@ def mapgraph(pid, tier, seed, jobs, profiles):
     for job in jobs:
         tag = "%s-%s-%s" % (pid, tier, job["tag"])
         pair = job.get("spec") == "pair"
-        if pair:
+        micro = job.get("spec") == "micro"
+        if micro:
+            consts = {"Cap": 2, "Classes": [1, 2, 3], "Adv": False, "Budget": 1, "Mode": job.get("mode", "map"),
+                      "Fams": job["family"], "MaxJ": 2, "MaxItems": 2, "Emit": True}
+        elif pair:
             consts = {"CapA": 2, "CapB": 2, "Classes": [0, 1, 2], "VerA": 0, "VerB": 1, "Vals": [0, 1], "Mode": job.get("mode", "set"),
                       "Family": job["family"], "Emit": True}
         else:
             consts = {"Caps": [0, 1, 2], "Classes": [0, 1, 2], "Vers": [0, 1], "Vals": [0, 1], "Mode": job.get("mode", "map"),
                       "Family": job["family"], "Emit": True, "MaxKs": 3, "MaxExtra": 2}
         consts.update(job.get("consts", {}))
-        if consts["Mode"] == "set":
+        if consts["Mode"] == "set" and not micro:
             consts["Vals"] = [0]
         table = os.path.join(WORK, "table-%s.ndjson" % tag)
-        st = run_tlc(tag, "PairSpec" if pair else "MapSpec", consts, PAIR_INVS if pair else ALL_INVS, table_path=table, timeout=job.get("timeout", 1500))
+        st = run_tlc(tag, "MapMicro" if micro else "PairSpec" if pair else "MapSpec", consts,
+                     MICRO_INVS if micro else PAIR_INVS if pair else ALL_INVS, table_path=table, timeout=job.get("timeout", 1500))
         if not st["ok"]:
             raise ToolError("TLC reports an error on the specification itself (%s):\n%s" % (tag, st["text"][-3000:]))
         if st["emitted"] == 0:
@@ -175,7 +181,9 @@ def mapgraph(pid, tier, seed, jobs, profiles):
                    "--walks", str(job.get("walks", 20)), "--steps", str(job.get("steps", 500)), "--seed", str(seed)]
             if pair:
                 cmd = [binp, "pairs", "--table", table, "--mode", consts["Mode"], "--out", rep_path, "--progress", prog]
-            if job.get("sweep"):
+            if micro:
+                cmd = [binp, "micro", "--table", table, "--mode", consts["Mode"], "--adv", "1" if consts["Adv"] else "0", "--out", rep_path, "--progress", prog]
+            elif job.get("sweep"):
                 cmd = [binp, job["sweep"], "--table", table, "--mode", consts["Mode"], "--out", rep_path, "--progress", prog,
                        "--stride", str(job.get("stride", 1)), "--offset", str(seed % job.get("stride", 1)), "--max-leaves", str(job.get("max_leaves", 256))]
             if os.path.exists(rep_path):
@@ -203,6 +211,9 @@ def mapgraph(pid, tier, seed, jobs, profiles):
                 sw = summary.setdefault("sweep", {"cases": 0, "runs": 0, "max_callbacks": 0, "truncated": 0, "callback_kinds": {}, "failing_sites": {}})
                 for k in ("cases", "runs", "truncated"):
                     sw[k] += rep["sweep"][k]
+                for k in ("injected_runs", "extra_positions", "drift_callbacks", "drift_outcome", "drift_survivors", "drift_asked"):
+                    if k in rep["sweep"]:
+                        sw["micro_" + k] = sw.get("micro_" + k, 0) + rep["sweep"][k]
                 sw["max_callbacks"] = max(sw["max_callbacks"], rep["sweep"]["max_callbacks"])
                 for k, v in rep["sweep"]["callback_kinds"].items():
                     sw["callback_kinds"][k] = sw["callback_kinds"].get(k, 0) + v
@@ -253,6 +264,27 @@ def jobs_for(pid, tier):
         return [dict(tag="%s-%dx%d" % (tag, ca, cb), spec="pair", family=family, mode=mode,
                      consts={"CapA": ca, "CapB": cb, "Classes": ([0, 1, 2] if max(ca, cb) <= 3 and q else [0, 1, 2, 3])}) for ca, cb in caps]
 
+    MFAM = ["core", "entry", "unchecked", "disjoint", "cursor", "bulk", "clone"]
+    SFAM = ["core", "cursor", "bulk", "clone"]
+
+    def micro(tag, mode, adv, cap, classes, fams, **c):
+        consts = {"Cap": cap, "Classes": classes, "Adv": adv, "Budget": 0 if adv else 1}
+        consts.update(c)
+        return dict(tag=tag, spec="micro", mode=mode, family=fams, consts=consts)
+
+    if q:
+        micro_inject = [micro("mi-map-n%d" % n, "map", False, n, [1, 2, 3], MFAM) for n in (1, 2)] + \
+                       [micro("mi-set-n%d" % n, "set", False, n, [1, 2, 3], SFAM) for n in (1, 2)]
+        micro_adv = [micro("ma-map-n%d" % n, "map", True, n, [1], MFAM, MaxJ=3) for n in (0, 1, 2, 3)] + \
+                    [micro("ma-set-n%d" % n, "set", True, n, [1], SFAM) for n in (0, 1, 2, 3)]
+    else:
+        micro_inject = [micro("mi-map-n%d" % n, "map", False, n, [1, 2, 3], MFAM, MaxJ=3, MaxItems=3) for n in (0, 1, 2)] + \
+                       [micro("mi-map-n3", "map", False, 3, [1, 2, 3, 4], MFAM, MaxJ=3, MaxItems=3)] + \
+                       [micro("mi-set-n%d" % n, "set", False, n, [1, 2, 3], SFAM, MaxItems=3) for n in (0, 1, 2)] + \
+                       [micro("mi-set-n3", "set", False, 3, [1, 2, 3, 4], SFAM, MaxItems=4)]
+        micro_adv = [micro("ma-map-n%d" % n, "map", True, n, [1], MFAM, MaxJ=4, MaxItems=4) for n in (0, 1, 2, 3, 4)] + \
+                    [micro("ma-set-n%d" % n, "set", True, n, [1], SFAM, MaxItems=4) for n in (0, 1, 2, 3, 4)]
+
     qcaps = [(2, 3), (3, 2), (0, 2), (2, 0)]
     tcaps = [(2, 3), (3, 2), (0, 2), (2, 0), (0, 0), (1, 1), (2, 2), (3, 3), (3, 4), (4, 3), (4, 4), (2, 4), (4, 2)]
     core = both("core", ["core"])
@@ -275,11 +307,11 @@ def jobs_for(pid, tier):
         "C06": core + both("cursor", ["cursor"]) + both("efdc", ["entry", "fmt", "disjoint", "clone", "unchecked"], consts={"Vers": [0]})
                + setcore + both("setclone", ["clone"], mode="set")
                + pairs("alg", ["algebra", "eq"], "set", qcaps[:2] if q else tcaps[:8]) + pairs("eqmap", ["eq"], "map", qcaps[:1] if q else tcaps[:4]),
-        "C04": [dict(j, sweep="inject") for j in
+        "C04": micro_inject + [dict(j, sweep="inject") for j in
                 both("core", ["core"]) + both("cef", ["cursor", "entry", "fmt", "unchecked"], consts={"Vers": [0]})
                 + both("bulkclone", ["bulk", "clone"], bigconsts={"MaxExtra": 1, "Vers": [0]})
                 + setcore + both("setbc", ["bulk", "clone"], mode="set", consts={"MaxExtra": 1}, bigconsts={"Vers": [0]})],
-        "C17": [dict(j, sweep="adversarial", max_leaves=(256 if q else 4096)) for j in
+        "C17": micro_adv + [dict(j, sweep="adversarial", max_leaves=(256 if q else 4096)) for j in
                 both("core", ["core"], consts={"Vers": [0]}) + both("ed", ["entry", "disjoint"], consts={"Vers": [0], "Vals": [0]}, bigconsts={"MaxKs": 3})
                 + both("bulkclone", ["bulk", "clone"], consts={"Vers": [0], "Vals": [0], "MaxExtra": 1})
                 + both("setcore", ["core"], mode="set", consts={"Vers": [0]}) + both("setbc", ["bulk"], mode="set", consts={"MaxExtra": 1, "Vers": [0]})],
